@@ -458,8 +458,8 @@ func main() {
 		b, _ := json.Marshal(c)
 		specs = append(specs, mon.ChildSpec{Label: "replay", Args: []string{strconv.Itoa(c.N), "0", "1", "replay", string(b)}, Timeout: 5 * time.Minute})
 	} else {
-		per := r.Pick(20, 400)
-		groupsPerN := r.Pick(3, 12)
+		per := r.Pick(20, 600)
+		groupsPerN := r.Pick(3, 24)
 		for n := 3; n <= 10; n++ {
 			for gi := 0; gi < groupsPerN; gi++ {
 				specs = append(specs, mon.ChildSpec{Label: fmt.Sprintf("n%d-g%d", n, gi), Args: []string{strconv.Itoa(n), strconv.Itoa(gi * per), strconv.Itoa((gi + 1) * per), "random"}, Timeout: 20 * time.Minute})
